@@ -9,6 +9,8 @@ import typing
 
 from pamqp import common
 
+_EPOCH = datetime.datetime(1970, 1, 1, tzinfo=datetime.timezone.utc)
+
 
 def by_type(value: bytes,
             data_type: str,
@@ -281,12 +283,15 @@ def timestamp(value: bytes) -> typing.Tuple[int, datetime.datetime]:
         temp = common.Struct.timestamp.unpack(value[0:8])
         ts_value = temp[0]
 
+        # Plain arithmetic: fromtimestamp() goes through the C library's
+        # gmtime(), which depends on the TZ setting for "right/" zones
+
         # Anything above the year 2106 is likely milliseconds
         if ts_value > 0xFFFFFFFF:
-            ts_value /= 1000.0
-
-        return 8, datetime.datetime.fromtimestamp(ts_value,
-                                                  tz=datetime.timezone.utc)
+            return 8, _EPOCH + datetime.timedelta(milliseconds=ts_value)
+        return 8, _EPOCH + datetime.timedelta(seconds=ts_value)
+    except OverflowError:
+        raise ValueError('Timestamp value out of range')
     except TypeError:
         raise ValueError('Could not unpack timestamp value')
 
